@@ -191,6 +191,9 @@ func (lm *levelManager) flush(immutable *memTable) (err error) {
 
 	iter.Rewind()
 	if !iter.Valid() {
+		if !lm.canRemoveWalSegment(uint32(fid)) {
+			return nil
+		}
 		if err := lm.lsm.wal.RemoveSegment(uint32(fid)); err != nil && !errors.Is(err, os.ErrNotExist) {
 			return err
 		}
